@@ -345,6 +345,16 @@ func countEv(ev []string, prefix string) int {
 }
 
 func ruleReaderProtocol(c *Ctx, r *Report, rule string, forC07 bool) {
+	mode := "c11"
+	if forC07 {
+		mode = "c07"
+	}
+	ruleReaderProtocolMode(c, r, rule, mode)
+}
+
+// ruleReaderProtocolMode: "c07" = data forwarding only; "c06" = termination only; "c11" = everything.
+func ruleReaderProtocolMode(c *Ctx, r *Report, rule string, mode string) {
+	forC07 := mode == "c07"
 	r.rule(rule, 3, "reader goroutine, per read outcome (err ∈ {nil, EOF, other} × n ∈ {0, >0}) and select branch: data (n>0 with nil or EOF) is always offered to the lexer; n=0 without EOF is skipped; EOF with n=0 and errors end the loop; every way out of the loop sends exactly once on rerr, staying in it sends nothing on rerr; the chunk send is in a select with <-done; inpc is closed after the loop; Close is deferred at entry")
 	m, err := c.parseFileModel()
 	if err != nil {
@@ -366,6 +376,9 @@ func ruleReaderProtocol(c *Ctx, r *Report, rule string, forC07 bool) {
 	}
 	// data is forwarded
 	for _, k := range []string{"nil/pos", "EOF/pos"} {
+		if mode == "c06" {
+			break
+		}
 		okSend, okGuard := false, true
 		for _, o := range by[k] {
 			if countEv(o.Events, "send inpc") == 1 && o.Exit == "loop" {
@@ -384,13 +397,16 @@ func ruleReaderProtocol(c *Ctx, r *Report, rule string, forC07 bool) {
 		// guarded send: whenever a chunk is sent there is an alternative outcome that observed done
 		guarded := true
 		for _, k := range []string{"nil/pos", "EOF/pos"} {
-			hasDone := false
+			hasDone, sends := false, false
 			for _, o := range by[k] {
 				if countEv(o.Events, "recv done") > 0 {
 					hasDone = true
 				}
+				if countEv(o.Events, "send inpc") > 0 {
+					sends = true
+				}
 			}
-			if !hasDone {
+			if sends && !hasDone {
 				guarded = false
 			}
 		}
@@ -409,6 +425,9 @@ func ruleReaderProtocol(c *Ctx, r *Report, rule string, forC07 bool) {
 	}
 	// exits
 	for _, k := range []string{"EOF/0", "other/0", "other/pos"} {
+		if mode == "c06" {
+			break
+		}
 		ok := len(by[k]) > 0
 		why := ""
 		for _, o := range by[k] {
@@ -446,6 +465,9 @@ func ruleReaderProtocol(c *Ctx, r *Report, rule string, forC07 bool) {
 		}
 	}
 	r.check(okOnce, rule, "rerr-once", "exactly one send on rerr on every way out, none while looping", why, pos)
+	if mode == "c06" {
+		return
+	}
 	// Close deferred at entry, nothing else closes
 	okClose := len(rm.Deferred) == 1 && rm.Deferred[0] == "f.Close" && len(rm.Prologue) == 1
 	closeCalls := 0
